@@ -35,6 +35,9 @@ func TestSim(t *testing.T) {
 		// determinism self-test: print the full event log of one seed
 		r := RunOne(t, *fProp, *fSeed, RunOpts{KeepLog: true})
 		var b strings.Builder
+		for _, l := range r.Desc {
+			b.WriteString("# " + l + "\n")
+		}
 		for _, l := range r.Log {
 			b.WriteString(l + "\n")
 		}
